@@ -232,29 +232,45 @@ func analyse(prop string, def *propDef, tier, root string, bc BuildConfig) (c *C
 		c.applyFloors()
 		return c, nil
 	}
-	p, err := loadProgView(root, bc, true)
+	var p *Prog
+	func() {
+		defer func() {
+			if r := recover(); r != nil {
+				p, err = nil, nil // the inliner could not cope: the program is analysed as written only
+			}
+		}()
+		p, err = loadProgView(root, bc, true)
+	}()
 	if err != nil {
 		return nil, err
 	}
-	c, err = runOn(p)
-	if err != nil || p.Inlined == 0 || os.Getenv("SLUGCHECK_ONEVIEW") != "" {
-		return c, err
+	if p != nil && (p.Inlined == 0 || os.Getenv("SLUGCHECK_ONEVIEW") != "") {
+		return runOn(p)
+	}
+	// new helpers: two forms of the same program
+	if p != nil {
+		func() {
+			defer func() {
+				if r := recover(); r != nil {
+					c = nil // a rule that cannot cope with the inlined form does not get its benefit
+				}
+			}()
+			c, err = runOn(p)
+		}()
+		if err != nil {
+			return nil, err
+		}
 	}
 	p2, err := loadProgView(root, bc, false)
 	if err != nil {
 		return nil, err
 	}
-	var c2 *Checker
-	func() {
-		defer func() {
-			if r := recover(); r != nil {
-				c2 = nil // the as-written form is an extra: a rule that cannot cope with it does not get its benefit
-			}
-		}()
-		c2, err = runOn(p2)
-	}()
-	if err != nil || c2 == nil {
-		return c, nil
+	c2, err := runOn(p2)
+	if err != nil {
+		return nil, err
+	}
+	if c == nil {
+		return c2, nil
 	}
 	return mergeViews(c, c2), nil
 }
